@@ -84,7 +84,9 @@ def broadcast(self, other):
     # Then repeat along axes
     #for newaxis in newaxes:  
     for newaxis in reversed(newaxes):  # should be faster ( CHECK ) 
-        if newobj.axes[newaxis.name].size == 1 and newaxis.size != 1:
+        curaxis = newobj.axes[newaxis.name]
+        if curaxis.size == 1 and (newaxis.size != 1 or curaxis.values[0] is None):
+            # also label a newly inserted dimension when the target axis has a single label
             newobj = newobj.repeat(newaxis.values, axis=newaxis.name)
 
     return newobj
